@@ -3,11 +3,31 @@ import copy, json, os
 from vlib import MachineryError, REPO
 
 ASSUMPTIONS = [
-    'file names f1 (exists before the run), f2, f3 in a fresh directory; commands `cat` and `sh -c \'cat; exit 3\'` (read their '
+    'file names f1 (exists before the run), f2, f3 and a directory d1 in a fresh directory; commands `cat` and `sh -c \'cat; exit 3\'` (read their '
     'input and echo it), `sh -c \'exec 0<&-; ...; exit 3\'` (closes its input at once, output form only) and `cat f1 2>/dev/null` '
-    '(system() only); payload of the k-th action of a run is the k-th letter',
+    '(system() only); payload of the k-th action of a run is built from the k-th letter (lower and upper case)',
+    'spellings of a path: absolute (literal or concatenated at run time), "./"-prefixed relative to the harness process\'s working '
+    'directory, <dir>/../w/f1, and /dev/..<dir>/f1 (starts with /dev/, is no device); the OpenFile wrapper records the file a call '
+    'denotes (cleaned absolute path), so the statement "every file is opened through it, in order, with the right mode" is judged, the '
+    'spelling handed to the function is not; within a run a file is used under one spelling (the interpreter keys streams by the '
+    'string: two spellings would be two streams on one file, about which the statement says nothing); /dev/stdin and other real '
+    'device nodes are not used (only /dev/null: writing discards, reading gives the end of input); /dev/stdout and /dev/stderr are '
+    'the interpreter\'s own streams (no open call is predicted for them)',
+    'command lines "" and "  " (no command): refused under NoExec in all three forms (judged: error, no process start -- the sentinel '
+    'shell wrapper logs a line even for an empty command line); without NoExec system() and | getline of them are generated but '
+    'whether a shell is started, and the value returned, are not judged; print | "" is generated only under NoExec (a writer racing '
+    'with a shell that exits at once); "  cat" is cat',
+    'operands: "" and "v=1" are not files (nothing opened, never refused; the standard input is the main input when no file operand '
+    'follows); a directory and a missing file are attempts to open a file for reading (refused under NoFileReads, else one recorded '
+    'OpenFile call); after the directory was opened the run must end with an error (no message compared); the error outcome of a '
+    'failed open (missing file) is not judged; at most one file operand, after any number of operands that are not files',
+    'newline output modes: "smart" is modelled as "raw" (the harness does not run on Windows); "crlf" is modelled after the '
+    'documentation of interp.CRLFNewlineMode ("forces the use of CRLF newlines on output"): per written string, every LF not already '
+    'preceded by CR is delivered as CR LF; payload shapes never end in CR (a CR at the end of one written string followed by the '
+    'LF of the next is not generated); CRLF mode is combined with the default output mode only (CSV/TSV quoting of newlines is '
+    'encoding/csv\'s); what getline / the main loop return for a line that ends in CR is not judged',
     'not generated because the statement leaves the outcome open: output to "-", /dev/stdout, /dev/stderr under NoFileWrites; a file '
-    'operand that does not exist or is open for writing; using one name in both directions at once is generated but its error '
+    'operand that is open for writing; using one name in both directions at once is generated but its error '
     'outcome is not judged',
     'results of getline from a command / system() are recorded but not judged; getline from stdin is judged only while no child '
     'process has been given the run\'s stdin',
@@ -70,6 +90,94 @@ def corrupt(case, rnd):
         p['stdout']['prog'] = p['stdout']['prog'] + [122]
         return c
     p['files']['f2']['ex'] = not p['files']['f2']['ex']
+    return c
+
+
+NEW_NAMES = ('/dev/null', 'd1', 'empty', 'blank', 'spcat', 'v=1')
+PATH_CLASSES = ('rel', 'dotdot', 'devdd')
+
+
+def new_dim_act(a):
+    """Does the action exercise one of the newer C12 dimensions (path spelling, /dev/null, operand kind, blank command line)?"""
+    return a.get('cls') in PATH_CLASSES or a.get('name') in NEW_NAMES or (a.get('op') == 'operand' and a.get('name') == '')
+
+
+def has_new_dim(case):
+    runs = case['runs'] if case.get('fam') == 'session' else [case]
+    return any(new_dim_act(a) for r in runs for a in r['acts'])
+
+
+def corrupt_new_dim(case, rnd):
+    """Corruptions aimed at what the model predicts for the newer dimensions: the recorded OpenFile call of a spelled name /
+    /dev/null / a directory or missing-file operand, the refusal of a blank command line or of such an operand."""
+    if case.get('fam') == 'session':
+        c = copy.deepcopy(case)
+        ks = [k for k, r in enumerate(c['runs']) if any(new_dim_act(a) for a in r['acts'])]
+        if not ks:
+            return None
+        k = ks[-1]
+        r = corrupt_new_dim(dict(fam='sandbox', cfg=c['runs'][k]['cfg'], acts=c['runs'][k]['acts'], pred=c['runs'][k]['pred']), rnd)
+        if r is None:
+            return None
+        c['runs'][k]['pred'] = r['pred']
+        return c
+    if not has_new_dim(case):
+        return None
+    c = copy.deepcopy(case)
+    p = c['pred']
+    cfg = c['cfg']
+    if cfg['custom'] and p['opens'] and rnd.randrange(3) > 0:
+        # the predicted call of the open-file function: dropped, or with the wrong mode
+        if rnd.randrange(2) == 0:
+            p['opens'] = p['opens'][:-1]
+        else:
+            m = p['opens'][-1]['mode']
+            p['opens'][-1]['mode'] = 'append' if m != 'append' else 'trunc'
+        return c
+    if cfg['ne'] and any(a.get('name') in ('empty', 'blank') for a in c['acts']) and rnd.randrange(2) == 0:
+        p['starts'] = p['starts'] + ['blank']       # under NoExec even the start of a command line without a command is judged
+        return c
+    if p['errJudged']:
+        p['err'] = not p['err']
+        return c
+    if cfg['custom']:
+        p['opens'] = p['opens'] + [{'name': '/dev/null', 'mode': 'read'}]
+        return c
+    p['starts'] = p['starts'] + ['spcat']
+    return c
+
+
+def has_newline_dim(case):
+    return case.get('fam') == 'newline' and (case['cfg']['nlmode'] == 'crlf' or
+                                             any(a.get('shape') not in (None, '', 'plain') for a in case['acts']))
+
+
+def corrupt_newline(case, rnd):
+    """Corrupt the predicted bytes of a destination at a newline: drop one CR, or turn the last LF into CR LF, in the predicted
+    standard output / file / error output; a prediction without any newline gets a byte appended."""
+    c = copy.deepcopy(case)
+    p = c['pred']
+    dests = []
+    if p['stdoutJudged'] and not p['stdout']['kids'] and p['stdout']['prog']:
+        dests.append(p['stdout']['prog'])
+    for n in ('f1', 'f2', 'f3'):
+        if p['files'][n]['ex'] and p['files'][n]['c']:
+            dests.append(p['files'][n]['c'])
+    if p['serrJudged'] and p['serr']:
+        dests.append(p['serr'])
+    for k in p['stdout']['kids'] if p['stdoutJudged'] else []:
+        if k['out']:
+            dests.append(k['out'])
+    if not dests:
+        return None
+    d = dests[rnd.randrange(len(dests))]
+    if 13 in d:
+        d.remove(13)
+    elif 10 in d:
+        i = len(d) - 1 - d[::-1].index(10)
+        d.insert(i, 13)
+    else:
+        d.append(122)
     return c
 
 
@@ -186,6 +294,11 @@ def corrupt_event(ev, rnd):
     if not obs:
         return None
     if e['act']['op'] == 'end':
+        crs = [n for n in ('f1', 'f2', 'f3') if 13 in obs['files'][n]['c']]
+        if crs and rnd.randrange(2) == 0:
+            # a file written with CRLF newlines (or a payload with CR LF in it): one CR lost
+            obs['files'][crs[0]]['c'].remove(13)
+            return e
         if rnd.randrange(3) == 0:
             obs['stale'] = obs['stale'] + [{'name': 'f1', 'mode': 'read'}]
         else:
